@@ -104,7 +104,7 @@ def main():
             for i, o in enumerate(all_obs):
                 for k, (h, g) in enumerate(smt.split_goal(list(o.hyps), o.goal)):
                     open(os.path.join(a.dump, "%03d_%d_%s.smt2" % (i, k, o.name.replace("/", "_").replace("#", "_"))), "w").write(smt.to_smt2(h, g))
-        agg = smt.discharge(all_obs, t_z3_ms=t_z3, t_cvc5_s=30 if a.tier == "quick" else 120)
+        agg = smt.discharge(all_obs, t_z3_ms=t_z3, t_cvc5_s=30 if a.tier == "quick" else 120, double_check=(a.tier == "thorough"))
         for fo, obs, ex, c in per_fn:
             names = []
             for ob in obs:
